@@ -202,6 +202,8 @@ struct Engine
     int   sweep_depth{0};
     long  c15_groups{0};
     bool  whitebox{true};
+    bool  keep_states{false};
+    std::vector<St> all_states;
 
     explicit Engine(Args& aa) : a(aa), cfg(aa.cfg), report(P(aa.prop)) {}
 
@@ -223,7 +225,9 @@ struct Engine
         std::reverse(out.begin(), out.end());
     }
 
-    Tr exec(const std::vector<Op>& hist, const Op* op)
+    Tr exec(const std::vector<Op>& hist, const Op* op) { return exec_cfg(cfg, hist, op); }
+
+    Tr exec_cfg(const Config& xcfg, const std::vector<Op>& hist, const Op* op)
     {
         Tr t;
         g_cur_hist = hist;
@@ -233,7 +237,7 @@ struct Engine
         g_now_ns        = BASE_NS;
         ValStats before = g_vs;
         {
-            A ad(cfg);
+            A ad(xcfg);
             for (auto& o : hist)
                 ad.apply(o);
             if (op)
@@ -782,7 +786,7 @@ struct Engine
         }
     }
 
-    void run_graph()
+    void run_graph(bool do_sweep = true)
     {
         t0 = wall();
         build_alphabet();
@@ -804,6 +808,8 @@ struct Engine
         nodes.push_back(Node{-1, Op{}});
         std::vector<St> frontier, next;
         frontier.push_back(St{0, m0});
+        if (keep_states)
+            all_states.push_back(frontier.back());
         std::string k0 = t00.dump + "##" + SP::canon(m0, cfg);
         seen.insert(hash128(k0));
         std::unordered_map<H128, int, H128H> depth_of;
@@ -856,6 +862,8 @@ struct Engine
                             depth_of[h] = depth + 1;
                         nodes.push_back(Node{st.node, s.op});
                         next.push_back(St{(int)nodes.size() - 1, s.m});
+                        if (keep_states)
+                            all_states.push_back(next.back());
                         if (samples.size() < 3 && depth + 1 >= 3)
                         {
                             std::vector<Op> hh = hist;
@@ -885,7 +893,7 @@ struct Engine
         }
 
         // dedup-free sweep (cross-check of the state key)
-        if (!capped && viols.empty())
+        if (do_sweep && !capped && viols.empty())
         {
             std::vector<Op> h;
             long            tr_before = transitions;
@@ -1036,6 +1044,8 @@ static int run(Args& a, const std::vector<Op>& replay_ops)
         e.t0 = wall();
         return e.run_replay(replay_ops);
     }
+    if (a.mode == "preplay")
+        return run_product<A>(a);
     if (a.mode == "graph")
     {
         Engine<A> e(a);
@@ -1154,6 +1164,8 @@ int main(int argc, char** argv)
                 if (op_parse(line + 3, o))
                     replay_ops.push_back(o);
             }
+            else if (!strncmp(line, "engine seqmc-product", 20))
+                a.mode = "preplay";
             else if (!strncmp(line, "props ", 6))
             {
                 int p = 0;
